@@ -268,6 +268,13 @@ def r6_field_table(ctx):
             env.setdefault(s.targets[0].id, []).append(s.value)
     d, dl, nc = be.params[1:4]
     ok = sym.same(env["starts"][0], f"{dl}[:-1].reshape(-1, {nc}) + 1") and sym.same(env["ends"][0], f"{dl}[1:].reshape(-1, {nc})") and sym.same(env["entry_starts"][0], "starts[:, 0]")
+    if not ok and all(k in env for k in ("starts", "ends", "entry_starts")):
+        # the same index formulas in another spelling (strided slices for columns of the reshaped table, +1 before the reshape ...): compared as index maps
+        from ..affine import same_map, R as _R, C as _C
+        _N = sym.Poly.atom(nc)
+        e1 = {k: v[0] for k, v in env.items() if len(v) == 1}
+        ok = same_map(env["starts"][0], dl, nc, _R * _N + _C, 1, 2, e1) and same_map(env["ends"][0], dl, nc, _R * _N + _C + sym.Poly.const(1), 0, 2, e1) and \
+            same_map(env["entry_starts"][0], dl, nc, _R * _N, 1, 1, e1)
     ctx.ob(be.where, "field (r, c) starts one past boundary r*n+c and ends at boundary r*n+c+1; a record starts at its first field", ok, "", key="C02-R6|starts-ends")
     e = [n for n in body_walk(be.node) if isinstance(n, ast.Return)]
     ok = len(e) == 1 and sym.same(e[0].value, f"TextThroughputExtractor({d}, starts, field_ends=ends, entry_starts=entry_starts, entry_ends=entry_ends)")
